@@ -428,6 +428,55 @@ let run_case (name : string) (lines : string list) (mode : mode) =
      done);
   print_string (Buffer.contents out)
 
+
+(* ---------- K1: codec lines (same format as harness/src/codec.rs) ---------- *)
+let run_codec (file : string) =
+  let ic = open_in file in
+  let i = ref 0 in
+  let cmp_str = function Lt -> "Less" | Eq -> "Equal" | Gt -> "Greater" in
+  let op_str = function
+    | RPut (k, h, sz) -> Printf.sprintf "put %s %s %s" (hex_of_bytes k) (hex_of_bytes h) (decimal_of_n sz)
+    | RRemove ks -> "rm " ^ (if ks = [] then "." else String.concat "," (List.map hex_of_bytes ks)) in
+  (try while true do
+      let l = String.trim (input_line ic) in
+      let t = List.filter (fun s -> s <> "") (String.split_on_char ' ' l) in
+      (match t with
+       | [] -> ()
+       | name :: _ ->
+         let r = match t with
+           | ["encop"; "put"; k; h; sz] -> hex_of_bytes (enc_op (RPut (bytes_of_hex k, bytes_of_hex h, n_of_decimal sz)))
+           | ["encop"; "rm"; ks] -> hex_of_bytes (enc_op (RRemove (if ks = "." then [] else List.map bytes_of_hex (String.split_on_char ',' ks))))
+           | ["decop"; h] -> (match dec_op (bytes_of_hex h) with Ok o -> "ok " ^ op_str o | Err e -> "err " ^ derr_str e)
+           | "encidx" :: ver :: rest ->
+             let es = (match rest with
+               | [] | ["."] -> []
+               | [e] -> List.map (fun x -> match String.split_on_char '=' x with
+                   | [k; v] -> (match String.split_on_char ':' v with
+                       | [h; sz] -> (bytes_of_hex k, { ihash = bytes_of_hex h; isize = n_of_decimal sz })
+                       | _ -> failwith "bad entry")
+                   | _ -> failwith "bad entry") (String.split_on_char ';' e)
+               | _ -> failwith "bad encidx") in
+             let sorted = List.fold_left (fun m (k, it) -> sm_ins lex_cmp m k it) [] es in
+             hex_of_bytes (enc_snapshot (n_of_decimal ver) sorted)
+           | ["decidx"; h] ->
+             (match dec_snapshot (bytes_of_hex h) with
+              | Err e -> "err " ^ derr_str e
+              | Ok (ver, es) ->
+                let sorted = List.fold_left (fun m (k, it) -> sm_ins lex_cmp m k it) [] es in
+                Printf.sprintf "ok %s [%s]" (decimal_of_n ver)
+                  (String.concat ";" (List.map (fun (k, it) -> hex_of_bytes k ^ "=" ^ hex_of_bytes it.ihash ^ ":" ^ decimal_of_n it.isize) sorted)))
+           | ["keydec"; kt; h] -> if key_valid (parse_kt kt) (bytes_of_hex h) then "some" else "none"
+           | ["keycmp"; kt; a; b] -> cmp_str (key_cmp (parse_kt kt) (bytes_of_hex a) (bytes_of_hex b))
+           | ["path"; h] -> String.concat "/" (List.map string_of_bytes (hexpath (bytes_of_hex h)))
+           | ["unpath"; p] ->
+             (match parse_path (List.map bytes_of_hex (String.split_on_char '/' p)) with
+              | Some h -> "ok " ^ hex_of_bytes h | None -> "err")
+           | _ -> failwith ("bad codec line " ^ l) in
+         Printf.printf "K %d %s -> %s\n" !i name r);
+      incr i
+    done with End_of_file -> ());
+  close_in ic
+
 let () =
   let mode = ref Plain in
   let files = ref [] in
@@ -435,6 +484,7 @@ let () =
   let rec go = function
     | "--toy" :: r -> toy_hash := true; go r
     | "--oracle" :: c :: r -> oracle_cmd := c; go r
+    | "--codec" :: f :: r -> run_codec f; go r
     | "--crash-all" :: r -> mode := CrashAll; go r
     | "--fault" :: k :: r -> mode := Fault (int_of_string k); go r
     | "--fault-all" :: r -> mode := FaultAll; go r
